@@ -445,6 +445,51 @@ def fit_uses_the_gradient(ctx: Ctx) -> None:
                               {"feats": feats, "gradient_present_before_fit": stale, "relative_error": worst})
 
 
+def fit_uses_the_gradient_of_every_owned_parameter(ctx: Ctx) -> None:
+    """... also for the parameters the supplied optimiser owns OUTSIDE the model: the w of an optimised certainty equivalent and
+    the module behind a trainable ModuleOutput feature.  Their update is -lr times the gradient of the same loss, too."""
+    from pfhedge.features import ModuleOutput
+    from pfhedge.instruments import BrownianStock, EuropeanOption
+    from pfhedge.nn import EntropicRiskMeasure, Hedger
+    from pfhedge.nn.modules.loss import OCE
+    lr = 2.0 ** -4
+    for kind in ("oce-w", "module-output"):
+        torch.manual_seed(ctx.seed + 56)
+        if kind == "oce-w":
+            model = torch.nn.Sequential(torch.nn.Linear(2, 4, dtype=DT), torch.nn.Tanh(), torch.nn.Linear(4, 1, dtype=DT))
+            crit = OCE(lambda z: 1 - torch.exp(-z)).to(DT)
+            hedger = Hedger(model, ["log_moneyness", "time_to_maturity"], criterion=crit)
+            extra = list(crit.parameters())
+        else:
+            ext = torch.nn.Sequential(torch.nn.Linear(2, 2, dtype=DT), torch.nn.Tanh())
+            model = torch.nn.Sequential(torch.nn.Linear(3, 4, dtype=DT), torch.nn.Tanh(), torch.nn.Linear(4, 1, dtype=DT))
+            hedger = Hedger(model, [ModuleOutput(ext, ["log_moneyness", "volatility"]), "time_to_maturity"], criterion=EntropicRiskMeasure(1.5))
+            extra = list(ext.parameters())
+        owned = list(model.parameters()) + extra
+        d = EuropeanOption(BrownianStock(cost=1e-2, dt=1 / 20, dtype=DT), maturity=6 / 20)
+        before = [p.detach().clone() for p in owned]
+        torch.manual_seed(78)
+        hedger.fit(d, n_epochs=1, n_paths=16, optimizer=torch.optim.SGD(owned, lr=lr), verbose=False, validation=False)
+        used = [(b - p.detach()) / lr for b, p in zip(before, owned)]
+        with torch.no_grad():
+            for p, b in zip(owned, before):
+                p.copy_(b)
+        for p in owned:
+            p.grad = None
+        hedger.train()
+        torch.manual_seed(78)
+        true = torch.autograd.grad(hedger.compute_loss(d, n_paths=16), owned)
+        ctx.count(("fit-gradient-owned", kind), n=1)
+        outside = slice(len(list(model.parameters())), None)
+        if not any(float(t.abs().max()) > 1e-6 for t in true[outside]):
+            raise MachineryError(f"fit_uses_the_gradient_of_every_owned_parameter: the loss does not depend on the outside parameters ({kind})")
+        worst = max(float((u - t).abs().max() / (1e-6 + t.abs().max())) for u, t in zip(used, true))
+        if not worst <= 1e-8:
+            ctx.violation("fit:gradient-used:outside-the-model", "a parameter the supplied optimiser owns outside the model was not updated by -lr times the gradient of the loss "
+                          "on that epoch's paths", {"kind": kind, "relative_error": worst, "update_of_outside_parameters": [u.flatten().tolist()[:3] for u in used[outside]],
+                                                     "gradient": [t.flatten().tolist()[:3] for t in true[outside]]})
+
+
 def check(ctx: Ctx) -> None:
     warnings.filterwarnings("ignore")
     res = ctx.tlc("MC_Grad", "MC_Grad_q_t3.cfg" if ctx.tier == "quick" else "MC_Grad_t_t4.cfg", workers=8, coverage=False)
@@ -461,6 +506,7 @@ def check(ctx: Ctx) -> None:
     two_runs_one_graph(ctx)
     lazy_first_use(ctx)
     fit_uses_the_gradient(ctx)
+    fit_uses_the_gradient_of_every_owned_parameter(ctx)
     for r in recs:
         ctx.distinct.add(json.dumps([r["p1"], r["p2"], r["cfg"], r["crit"]]))
     ctx.sample(recs[0]); ctx.sample(recs[len(recs) // 2])
